@@ -122,7 +122,7 @@ func c02Skip(e *Env, pool *hx.Pool, viol func(kind, sig, what, chk string, rep a
 						err = fmt.Errorf("panic: %v", p)
 					}
 				}()
-				cs, err := c02Differ(d).SchemaDiff(c02Build(d, base), c02Build(d, edited), schema.DiffNormalized(), schema.DiffSkipChanges(skipC...))
+				cs, err := c02Differ(d).SchemaDiff(c02Build(d, base), c02Build(d, edited), append([]schema.DiffOption{schema.DiffNormalized()}, skipOpts(skipC, k)...)...)
 				if err != nil {
 					return err
 				}
